@@ -12,10 +12,13 @@ segment-aligned variant that only serves to state the decidable hypothesis `Segm
 * `C14_expand_optionals`: the worklist = the recursive spec, 2^k entries, no optional left — full.
 * `C14_match_iff_flat_full`: the full statement; `C14_match_iff_flat_full_false` refutes it (F-C14-1);
   further witnesses, one per known-finding class.
-* `C14_match_iff_flat_partial`: proved for single leaf routes whose segments are plain statics and params
-  (`SimpleF`), under `SegmentAligned`.  `C14_match_iff_flat_partial_general` is the statement over
-  arbitrary optional-free route trees — OPEN (checked by the correspondence run on every generated case,
-  not proved).
+* `C14_match_iff_flat_partial` (+ `_holds`): proved for single leaf routes whose segments are plain
+  statics and params (`SimpleN`), for every path on which `SegmentAligned` holds (decidable; its negation is
+  the class of F-C14-1/2/3).  Route: `pass_simple` (one pass of the tuple loop = the segment-wise matcher
+  `simpleMatch`), `leaf_simple`, `patternTokens_simple` (the `to_axum_path` pattern of such a route is one
+  token per segment), `simple_eq_lenient` (`simpleMatch` = token matcher with the trailing-slash tolerance).
+  `C14_match_iff_flat_partial_general` is the statement over arbitrary optional-free route trees — OPEN
+  (checked by the correspondence run on every generated case, not proved).
 * `C14_build_then_match`: full for `SimpleF` segment lists.
 -/
 namespace Leptos.Router
@@ -1102,4 +1105,748 @@ run evaluates `Holds` on every generated case and reports any failure outside th
 def C14_match_iff_flat_partial_general : Prop :=
   ∀ (d : Defs) (path : Path), d.wf = true → startsSlash path = true → noOptionalList d.tops = true →
     SegmentAligned d path → Holds d path
+
+/-! ## the partial theorem, proved for the simple sub-class -/
+
+
+/-- segment-wise matcher for the simple sub-class, on characters: every segment consumes `/` + one
+whole `/`-separated token; at the end nothing or a single `/` may be left -/
+def simpleMatch : List FSeg → Path → Option Params
+  | [], r => if complete r then some [] else none
+  | _ :: _, [] => none
+  | f :: fs, c :: t =>
+    if c = '/' then
+      match f with
+      | .st s => if segHead t = s then simpleMatch fs (segTail t) else none
+      | .param n => if segHead t = [] then none else (simpleMatch fs (segTail t)).map ((n, segHead t) :: ·)
+      | _ => none
+    else none
+
+/-- what a pass of the tuple loop amounts to for a leaf route -/
+def passOut : Pass → Out Params
+  | .done r _ p => if complete r then .some p else .none
+  | .panic => .panic
+  | _ => .none
+
+def liftP (p : Params) : Option Params → Out Params
+  | some q => .some (p ++ q)
+  | none => .none
+
+theorem stripPrefix_append (s rest : Path) : stripPrefix s (s ++ rest) = some rest := by
+  induction s with
+  | nil => cases rest <;> simp [stripPrefix]
+  | cons c s ih => simp [stripPrefix, ih]
+
+theorem stripPrefix_some (s : Path) : ∀ t rest, stripPrefix s t = some rest → t = s ++ rest := by
+  induction s with
+  | nil => intro t rest h; cases t <;> simp [stripPrefix] at h <;> simp [h]
+  | cons c s ih =>
+    intro t rest h
+    cases t with
+    | nil => simp [stripPrefix] at h
+    | cons d t =>
+      simp only [stripPrefix] at h
+      split at h
+      · next hcd => subst hcd; simp [ih t rest h]
+      · simp at h
+
+/-- `StaticSegment::test` on `/…`: a prefix test (never a panic) -/
+theorem staticTest_slash_cases (s t : Path) (hs : Plain s) :
+    staticTest s ('/' :: t) =
+      match stripPrefix s t with
+      | some rest => .some ⟨'/' :: s, rest, []⟩
+      | none => .none := by
+  cases hp : stripPrefix s t with
+  | some rest =>
+    have := stripPrefix_some s t rest hp
+    subst this
+    simpa using staticTest_slash s rest hs
+  | none =>
+    simp only
+    cases hr : staticTest s ('/' :: t) with
+    | none => rfl
+    | some m =>
+      obtain ⟨rest, h1, _⟩ := staticTest_slash_some s t hs m hr
+      subst h1
+      simp [stripPrefix_append] at hp
+    | panic =>
+      exfalso
+      obtain ⟨hne, hns⟩ := hs
+      have hh : s.head? ≠ some '/' := by
+        cases s with
+        | nil => simp
+        | cons c s => simp; intro h; apply hns; simp [h]
+      have he : s.isEmpty = false := by cases s <;> simp at hne ⊢
+      cases hl : staticLoop s t false 1 with
+      | none =>
+        unfold staticTest at hr
+        simp [he, hh] at hr
+        cases hs2 : (s == ['/']) <;> simp [hs2, hl] at hr
+        · have : s = ['/'] := by simpa using hs2
+          subst this; simp at hns
+      | some r =>
+        obtain ⟨rest, h1, _⟩ := staticLoop_some s t _ _ _ hl
+        subst h1
+        have := staticTest_slash s rest ⟨hne, hns⟩
+        rw [List.cons_append] at this
+        rw [this] at hr
+        simp at hr
+
+theorem segTail_aligned (t : Path) : segTail t = [] ∨ startsSlash (segTail t) = true := by
+  induction t with
+  | nil => left; rfl
+  | cons c t ih =>
+    by_cases hc : c = '/'
+    · right; simp [segTail, hc, startsSlash]
+    · simpa [segTail, hc] using ih
+
+theorem segHead_eq_iff (s t : Path) (hs : '/' ∉ s) :
+    segHead t = s ↔ ∃ rest, t = s ++ rest ∧ (rest = [] ∨ startsSlash rest = true) ∧ segTail t = rest := by
+  constructor
+  · intro h
+    refine ⟨segTail t, ?_, ?_, rfl⟩
+    · rw [← h]; exact (segHead_append_segTail t).symm
+    · exact segTail_aligned t
+  · rintro ⟨rest, rfl, hr, _⟩
+    exact (segHead_append s rest hs hr).1
+
+theorem paramTest_nil (n : Path) : paramTest n [] = .none := by
+  simp [paramTest, paramScan]
+
+theorem complete_unaligned {r : Path} (h1 : r ≠ []) (h2 : startsSlash r = false) : complete r = false := by
+  cases r with
+  | nil => simp at h1
+  | cons c r =>
+    simp [startsSlash] at h2
+    simp [complete, h2]
+
+/-- after an unaligned static match nothing can follow (aligned variant) -/
+theorem pass_unaligned (fs : List FSeg) (hs : ∀ f ∈ fs, SimpleF f) (r : Path) (h1 : r ≠ [])
+    (h2 : startsSlash r = false) (first : Bool) (nth ml : Nat) (p : Params) :
+    passOut (passFields true (fs.map toSeg) first 0 nth r ml p) = .none := by
+  cases fs with
+  | nil => simp [passFields, passOut, complete_unaligned h1 h2]
+  | cons f fs =>
+    have ho := toSeg_optional (hs f (by simp))
+    have hne : r.isEmpty = false := by cases r <;> simp at h1 ⊢
+    have hst : startOk true r = false := by simp [startOk, hne, h2]
+    have hf := hs f (by simp)
+    cases f with
+    | st s => simp [passFields, toSeg, Seg.optional, Seg.test, hst, passOut]
+    | param n => simp [passFields, toSeg, Seg.optional, Seg.test, hst, passOut]
+    | opt n => simp [SimpleF] at hf
+    | splat n => simp [SimpleF] at hf
+
+/-- **core of the partial theorem**: one pass of the (aligned) tuple loop over simple segments is the
+segment-wise matcher -/
+theorem pass_simple : ∀ (fs : List FSeg), (∀ f ∈ fs, SimpleF f) → ∀ (first : Bool) (nth : Nat) (r : Path) (ml : Nat)
+    (p : Params), passOut (passFields true (fs.map toSeg) first 0 nth r ml p) = liftP p (simpleMatch fs r) := by
+  intro fs
+  induction fs with
+  | nil =>
+    intro _ first nth r ml p
+    simp only [List.map_nil, passFields, passOut, simpleMatch]
+    split <;> simp [liftP]
+  | cons f fs ih =>
+    intro hs first nth r ml p
+    have hf := hs f (by simp)
+    have hs' : ∀ f ∈ fs, SimpleF f := fun x hx => hs x (by simp [hx])
+    cases r with
+    | nil =>
+      cases f with
+      | st s =>
+        simp [passFields, toSeg, Seg.optional, Seg.test, startOk, staticTest_nil s hf, simpleMatch, liftP]
+        cases first <;> simp [passOut]
+      | param n =>
+        simp [passFields, toSeg, Seg.optional, Seg.test, startOk, paramTest_nil, simpleMatch, liftP]
+        cases first <;> simp [passOut]
+      | opt n => simp [SimpleF] at hf
+      | splat n => simp [SimpleF] at hf
+    | cons c t =>
+      by_cases hc : c = '/'
+      · subst hc
+        cases f with
+        | st s =>
+          have hpl : Plain s := hf
+          simp only [List.map_cons, toSeg, passFields, Seg.optional, Bool.false_eq_true, if_false, Bool.not_false,
+            Bool.true_or, if_true, Seg.test, startOk, startsSlash, decide_true, Bool.or_true,
+            staticTest_slash_cases s t hpl, simpleMatch]
+          cases hp : stripPrefix s t with
+          | none =>
+            have : segHead t ≠ s := by
+              intro h
+              obtain ⟨rest, h1, _, _⟩ := (segHead_eq_iff s t hpl.2).1 h
+              subst h1; simp [stripPrefix_append] at hp
+            simp [this, liftP]
+            cases first <;> simp [passOut]
+          | some rest =>
+            have ht := stripPrefix_some s t rest hp
+            subst ht
+            simp only [List.append_nil]
+            by_cases hal : rest = [] ∨ startsSlash rest = true
+            · obtain ⟨h1, h2⟩ := segHead_append s rest hpl.2 hal
+              rw [ih hs']
+              simp [h1, h2]
+            · have h1 : rest ≠ [] := fun h => hal (Or.inl h)
+              have h2 : startsSlash rest = false := by
+                cases hss : startsSlash rest
+                · rfl
+                · exact absurd (Or.inr hss) hal
+              rw [pass_unaligned fs hs' rest h1 h2]
+              have : segHead (s ++ rest) ≠ s := by
+                intro h
+                obtain ⟨rest', h3, h4, _⟩ := (segHead_eq_iff s _ hpl.2).1 h
+                have : rest' = rest := by simpa using h3.symm
+                subst this
+                exact hal h4
+              simp [this, liftP]
+        | param n =>
+          simp only [List.map_cons, toSeg, passFields, Seg.optional, Bool.false_eq_true, if_false, Bool.not_false,
+            Bool.true_or, if_true, Seg.test, startOk, startsSlash, decide_true, Bool.or_true,
+            paramTest_slash, simpleMatch]
+          by_cases he : segHead t = []
+          · simp [he, liftP]
+            cases first <;> simp [passOut]
+          · simp only [he, if_false]
+            rw [ih hs']
+            cases simpleMatch fs (segTail t) <;> simp [liftP]
+        | opt n => simp [SimpleF] at hf
+        | splat n => simp [SimpleF] at hf
+      · have hst : startOk true (c :: t) = false := by simp [startOk, startsSlash, hc]
+        cases f with
+        | st s =>
+          simp [passFields, toSeg, Seg.optional, Seg.test, hst, simpleMatch, hc, liftP]
+          cases first <;> simp [passOut]
+        | param n =>
+          simp [passFields, toSeg, Seg.optional, Seg.test, hst, simpleMatch, hc, liftP]
+          cases first <;> simp [passOut]
+        | opt n => simp [SimpleF] at hf
+        | splat n => simp [SimpleF] at hf
+
+
+
+
+
+
+
+/-- the tuple test of an optional-free, non-empty segment list is one pass with `include_optionals = 0` -/
+theorem tup_pass (k : Bool) (fs : List FSeg) (hs : ∀ f ∈ fs, SimpleF f) (hne : fs ≠ []) (path : Path) :
+    (Seg.tup (fs.map toSeg)).test k path =
+      match passFields k (fs.map toSeg) true 0 0 path 0 [] with
+      | .done r ml p =>
+        (match splitBytes path ml with
+         | some (pre, _) => .some ⟨pre, r, p⟩
+         | none => .panic)
+      | .panic => .panic
+      | _ => .none := by
+  match fs, hs, hne with
+  | [f], hs, _ =>
+    have ho := toSeg_optional (hs f (by simp))
+    simp only [List.map_cons, List.map_nil, Seg.test, passFields, ho, Bool.not_false, Bool.true_or, if_true,
+      Bool.false_eq_true, if_false]
+    cases (toSeg f).test k path <;> simp
+    cases splitBytes path (bytes _) <;> rfl
+  | f :: g :: fs, hs, _ =>
+    have hc := countOpt_simple (f :: g :: fs) hs
+    simp only [List.map_cons] at hc
+    simp only [List.map_cons, Seg.test, hc, backoff]
+    cases passFields k (toSeg f :: toSeg g :: List.map toSeg fs) true 0 0 path 0 [] <;> rfl
+
+/-- **router ≡ segment-wise matcher** on the simple sub-class (aligned variant): never a panic; a match
+exactly when `simpleMatch` accepts, with the same params, as definition 0 -/
+theorem leaf_simple (fs : List FSeg) (hs : ∀ f ∈ fs, SimpleF f) (hne : fs ≠ []) (path : Path) :
+    ∃ mt, matchRoute true (leafDefs fs) path =
+      match simpleMatch fs path with
+      | some q => .some ⟨[(0, mt)], q⟩
+      | none => .none := by
+  have hps := pass_simple fs hs true 0 path 0 []
+  have htp := tup_pass true fs hs hne path
+  cases hpf : passFields true (fs.map toSeg) true 0 0 path 0 [] with
+  | done r ml p =>
+    obtain ⟨c, hc1, hc2⟩ := pass_inv true (fs.map toSeg) true 0 0 path 0 [] path [] r ml p (by simp) (by simp [bytes]) hpf
+    have hsp : splitBytes path ml = some (c, r) := by
+      have := splitBytes_bytes c r
+      rw [hc1, hc2] at this; exact this
+    rw [hpf] at htp hps
+    simp only [hsp] at htp
+    simp only [passOut] at hps
+    refine ⟨c, ?_⟩
+    by_cases hcomp : complete r = true
+    · simp only [hcomp, if_true] at hps
+      cases hsm : simpleMatch fs path with
+      | none => simp [hsm, liftP] at hps
+      | some q =>
+        simp [hsm, liftP] at hps
+        subst hps
+        simp [matchRoute, leafDefs, stripBase, matchChildren, matchNested, htp, finish, hcomp]
+    · simp only [hcomp] at hps
+      cases hsm : simpleMatch fs path with
+      | some q => simp [hsm, liftP] at hps
+      | none => simp [matchRoute, leafDefs, stripBase, matchChildren, matchNested, htp, finish, hcomp]
+  | panic =>
+    rw [hpf] at hps
+    cases hsm : simpleMatch fs path <;> simp [hsm, liftP, passOut] at hps
+  | fail =>
+    rw [hpf] at htp hps
+    cases hsm : simpleMatch fs path with
+    | some q => simp [hsm, liftP, passOut] at hps
+    | none => exact ⟨[], by simp [matchRoute, leafDefs, stripBase, matchChildren, matchNested, htp]⟩
+  | retry =>
+    rw [hpf] at htp hps
+    cases hsm : simpleMatch fs path with
+    | some q => simp [hsm, liftP, passOut] at hps
+    | none => exact ⟨[], by simp [matchRoute, leafDefs, stripBase, matchChildren, matchNested, htp]⟩
+
+
+
+
+
+/-! ### the registered pattern of a simple route -/
+
+def tokOf : FSeg → Tok
+  | .st s => .lit s
+  | .param n => .par n
+  | .opt _ => .bad
+  | .splat n => .spl n
+
+/-- simple segment with a usable parameter name (non-empty, no `/`) -/
+def SimpleN : FSeg → Prop
+  | .st s => Plain s
+  | .param n => Plain n
+  | _ => False
+
+instance : DecidablePred SimpleN := fun f => by cases f <;> unfold SimpleN <;> exact inferInstance
+
+theorem SimpleN.simple {f : FSeg} (h : SimpleN f) : SimpleF f := by
+  cases f <;> simp [SimpleN] at h <;> simp [SimpleF, h]
+
+def bodyP : FSeg → List PChar
+  | .st s => s.map PChar.lit
+  | .param n => [PChar.par n]
+  | .splat n => [PChar.spl n]
+  | .opt _ => []
+
+theorem joinAxum_cons (f : FSeg) (fs : List FSeg) (h : SimpleN f) :
+    joinAxum (f :: fs) = PChar.lit '/' :: (bodyP f ++ joinAxum fs) := by
+  cases f with
+  | st s =>
+    obtain ⟨hne, hns⟩ : Plain s := h
+    have he : s.isEmpty = false := by cases s <;> simp at hne ⊢
+    simp [joinAxum, FSeg.raw, he, plain_not_startsSlash hns, bodyP]
+  | param n =>
+    obtain ⟨hne, hns⟩ : Plain n := h
+    have he : n.isEmpty = false := by cases n <;> simp at hne ⊢
+    simp [joinAxum, FSeg.raw, he, plain_not_startsSlash hns, bodyP]
+  | opt n => simp [SimpleN] at h
+  | splat n => simp [SimpleN] at h
+
+theorem splitP_ne (l : List PChar) : splitP l ≠ [] := by
+  cases l with
+  | nil => simp [splitP]
+  | cons c cs =>
+    simp only [splitP]
+    cases splitP cs with
+    | nil => simp
+    | cons h t => by_cases hc : c = PChar.lit '/' <;> simp [hc]
+
+theorem splitP_free (l : List PChar) (h : PChar.lit '/' ∉ l) : splitP l = [l] := by
+  induction l with
+  | nil => simp [splitP]
+  | cons c cs ih =>
+    have hc : c ≠ PChar.lit '/' := by intro e; apply h; simp [e]
+    have hcs : PChar.lit '/' ∉ cs := by intro e; apply h; simp [e]
+    simp [splitP, ih hcs, hc]
+
+theorem splitP_append_sep (l r : List PChar) (h : PChar.lit '/' ∉ l) :
+    splitP (l ++ PChar.lit '/' :: r) = l :: splitP r := by
+  induction l with
+  | nil =>
+    simp only [List.nil_append, splitP]
+    cases hs : splitP r with
+    | nil => exact absurd hs (splitP_ne r)
+    | cons a b => simp
+  | cons c cs ih =>
+    have hc : c ≠ PChar.lit '/' := by intro e; apply h; simp [e]
+    have hcs : PChar.lit '/' ∉ cs := by intro e; apply h; simp [e]
+    simp [splitP, ih hcs, hc]
+
+theorem bodyP_free (f : FSeg) (h : SimpleN f) : PChar.lit '/' ∉ bodyP f := by
+  cases f with
+  | st s =>
+    obtain ⟨_, hns⟩ : Plain s := h
+    simp [bodyP]; exact hns
+  | param n => simp [bodyP]
+  | opt n => simp [SimpleN] at h
+  | splat n => simp [SimpleN] at h
+
+theorem litsOf_map (s : Path) : litsOf (s.map PChar.lit) = some s := by
+  induction s with
+  | nil => rfl
+  | cons c s ih => simp [litsOf, ih]
+
+theorem toTok_body (f : FSeg) (h : SimpleN f) : toTok (bodyP f) = tokOf f := by
+  cases f with
+  | st s =>
+    obtain ⟨hne, _⟩ : Plain s := h
+    cases s with
+    | nil => simp at hne
+    | cons c r =>
+      cases r with
+      | nil => simp [bodyP, toTok, litsOf, tokOf]
+      | cons d r => simp [bodyP, toTok, litsOf, litsOf_map, tokOf]
+  | param n => simp [bodyP, toTok, tokOf]
+  | opt n => simp [SimpleN] at h
+  | splat n => simp [SimpleN] at h
+
+theorem splitP_join (f : FSeg) (fs : List FSeg) (hf : SimpleN f) (hs : ∀ g ∈ fs, SimpleN g) :
+    splitP (bodyP f ++ joinAxum fs) = (f :: fs).map bodyP := by
+  induction fs generalizing f with
+  | nil => simp [joinAxum, splitP_free _ (bodyP_free f hf)]
+  | cons g fs ih =>
+    rw [joinAxum_cons g fs (hs g (by simp)), splitP_append_sep _ _ (bodyP_free f hf),
+      ih g (hs g (by simp)) (fun x hx => hs x (by simp [hx]))]
+    simp
+
+/-- the registered pattern of a simple route is its segments, one token each -/
+theorem patternTokens_simple (fs : List FSeg) (hs : ∀ g ∈ fs, SimpleN g) (hne : fs ≠ []) :
+    patternTokens fs = some (fs.map tokOf) := by
+  cases fs with
+  | nil => simp at hne
+  | cons f fs =>
+    have hf := hs f (by simp)
+    have hs' : ∀ g ∈ fs, SimpleN g := fun x hx => hs x (by simp [hx])
+    unfold patternTokens
+    rw [joinAxum_cons f fs hf]
+    simp only [if_true]
+    rw [splitP_join f fs hf hs']
+    congr 1
+    simp only [List.map_map]
+    apply List.map_congr_left
+    intro g hg
+    exact toTok_body g (hs g hg)
+
+
+
+
+
+
+
+/-! ### segment-wise matcher = token matcher -/
+
+def orE {α : Type} : Option α → Option α → Option α
+  | some a, _ => some a
+  | none, b => b
+
+def checkTok (f : FSeg) (h : Path) (X : Option Params) : Option Params :=
+  match f with
+  | .st s => if s = h then X else none
+  | .param n => if h.isEmpty then none else X.map ((n, h) :: ·)
+  | _ => none
+
+theorem check_none (f : FSeg) (h : Path) : checkTok f h none = none := by
+  cases f <;> simp [checkTok]
+
+theorem check_orE (f : FSeg) (h : Path) (A B : Option Params) :
+    checkTok f h (orE A B) = orE (checkTok f h A) (checkTok f h B) := by
+  cases f with
+  | st s => by_cases e : s = h <;> simp [checkTok, e, orE]
+  | param n => cases hh : h.isEmpty <;> cases A <;> simp [checkTok, hh, orE]
+  | opt n => simp [checkTok, orE]
+  | splat n => simp [checkTok, orE]
+
+theorem sm_cons (f : FSeg) (fs : List FSeg) (t : Path) (hf : SimpleN f) :
+    simpleMatch (f :: fs) ('/' :: t) = checkTok f (segHead t) (simpleMatch fs (segTail t)) := by
+  cases f with
+  | st s => simp [simpleMatch, checkTok, eq_comm]
+  | param n =>
+    simp only [simpleMatch, checkTok, if_true]
+    cases hh : segHead t <;> simp
+  | opt n => simp [SimpleN] at hf
+  | splat n => simp [SimpleN] at hf
+
+theorem tm_cons (f : FSeg) (toks : List Tok) (h : Path) (ts : List Path) (hf : SimpleN f) :
+    tokMatch (tokOf f :: toks) (h :: ts) = checkTok f h (tokMatch toks ts) := by
+  cases f with
+  | st s => simp [tokOf, tokMatch, checkTok]
+  | param n => simp [tokOf, tokMatch, checkTok]
+  | opt n => simp [SimpleN] at hf
+  | splat n => simp [SimpleN] at hf
+
+theorem tm_cons_nil (f : FSeg) (toks : List Tok) (hf : SimpleN f) : tokMatch (tokOf f :: toks) [] = none := by
+  cases f with
+  | st s => simp [tokOf, tokMatch]
+  | param n => simp [tokOf, tokMatch]
+  | opt n => simp [SimpleN] at hf
+  | splat n => simp [SimpleN] at hf
+
+theorem tm_nil (ts : List Path) : tokMatch [] ts = if ts = [] then some [] else none := by
+  cases ts <;> simp [tokMatch]
+
+theorem splitSlash_ne (l : Path) : splitSlash l ≠ [] := by
+  cases l with
+  | nil => simp [splitSlash]
+  | cons c cs =>
+    simp only [splitSlash]
+    cases splitSlash cs with
+    | nil => simp
+    | cons h t => by_cases hc : c = '/' <;> simp [hc]
+
+theorem splitSlash_unfold (t : Path) :
+    splitSlash t = match segTail t with
+      | [] => [segHead t]
+      | _ :: r => segHead t :: splitSlash r := by
+  induction t with
+  | nil => simp [splitSlash, segHead, segTail]
+  | cons c t ih =>
+    by_cases hc : c = '/'
+    · subst hc
+      simp only [splitSlash, segHead, segTail]
+      cases hs : splitSlash t with
+      | nil => exact absurd hs (splitSlash_ne t)
+      | cons a b => simp [hs]
+    · simp only [splitSlash]
+      cases hs : splitSlash t with
+      | nil => exact absurd hs (splitSlash_ne t)
+      | cons a b =>
+        rw [hs] at ih
+        have h1 : segHead (c :: t) = c :: segHead t := by simp [segHead, hc]
+        have h2 : segTail (c :: t) = segTail t := by simp [segTail, hc]
+        rw [h1, h2]
+        cases hst : segTail t with
+        | nil => rw [hst] at ih; simp at ih; simp [hc, ih]
+        | cons d r => rw [hst] at ih; simp at ih; simp [hc, ih]
+
+theorem endsSlash_cons (c : Char) (t : Path) : endsSlash (c :: t) = if t.isEmpty then decide (c = '/') else endsSlash t := by
+  cases t <;> simp [endsSlash]
+
+theorem endsSlash_of_segTail_nil (t : Path) (h : segTail t = []) : endsSlash t = false := by
+  induction t with
+  | nil => rfl
+  | cons c t ih =>
+    by_cases hc : c = '/'
+    · simp [segTail, hc] at h
+    · have h2 : segTail t = [] := by simpa [segTail, hc] using h
+      rw [endsSlash_cons]
+      cases t with
+      | nil => simp [hc]
+      | cons d t => simp; exact ih h2
+
+theorem endsSlash_of_segTail_cons (t : Path) (c : Char) (r : Path) (h : segTail t = c :: r) :
+    endsSlash t = (r.isEmpty || endsSlash r) := by
+  induction t with
+  | nil => simp [segTail] at h
+  | cons d t ih =>
+    by_cases hd : d = '/'
+    · subst hd
+      simp [segTail] at h
+      obtain ⟨_, rfl⟩ := h
+      rw [endsSlash_cons]
+      cases t <;> simp
+    · have h2 : segTail t = c :: r := by simpa [segTail, hd] using h
+      rw [endsSlash_cons]
+      cases t with
+      | nil => simp [segTail] at h2
+      | cons e t => simp; exact ih h2
+
+theorem dropLast_ne_of_endsSlash (r : Path) (h : endsSlash r = true) : (splitSlash r).dropLast ≠ [] := by
+  cases hst : segTail r with
+  | nil => rw [endsSlash_of_segTail_nil r hst] at h; simp at h
+  | cons c r' =>
+    rw [splitSlash_unfold, hst]
+    simp only
+    rw [List.dropLast_cons_of_ne_nil (splitSlash_ne r')]
+    simp
+
+theorem complete_slash (r : Path) : complete ('/' :: r) = r.isEmpty := by
+  cases r <;> simp [complete]
+
+/-- strict match, or the same without the last token when the path ends in `/` (the shape of `flatMatch`) -/
+def lenient (toks : List Tok) (t : Path) : Option Params :=
+  orE (tokMatch toks (splitSlash t))
+    (if t.isEmpty = false ∧ endsSlash t = true then tokMatch toks (splitSlash t).dropLast else none)
+
+theorem simple_eq_lenient : ∀ (fs : List FSeg), (∀ g ∈ fs, SimpleN g) → fs ≠ [] → ∀ t : Path,
+    simpleMatch fs ('/' :: t) = lenient (fs.map tokOf) t := by
+  intro fs
+  induction fs with
+  | nil => intro _ h; exact absurd rfl h
+  | cons f fs ih =>
+    intro hs _ t
+    have hf := hs f (by simp)
+    have hs' : ∀ g ∈ fs, SimpleN g := fun x hx => hs x (by simp [hx])
+    rw [sm_cons f fs t hf]
+    unfold lenient
+    rw [splitSlash_unfold t]
+    cases hst : segTail t with
+    | nil =>
+      simp only [endsSlash_of_segTail_nil t hst, Bool.false_eq_true, and_false, if_false, List.map_cons]
+      rw [tm_cons f _ _ _ hf]
+      cases fs with
+      | nil => simp [simpleMatch, complete, tokMatch, orE]; cases checkTok f (segHead t) (some []) <;> rfl
+      | cons g fs' =>
+        simp only [List.map_cons]
+        rw [tm_cons_nil g _ (hs' g (by simp))]
+        simp [simpleMatch, check_none, orE]
+    | cons c r =>
+      have hc : c = '/' := by
+        have := segTail_aligned t
+        rw [hst] at this
+        simpa [startsSlash] using this
+      subst hc
+      have htne : t.isEmpty = false := by
+        cases t with
+        | nil => simp [segTail] at hst
+        | cons _ _ => rfl
+      simp only [htne, endsSlash_of_segTail_cons t '/' r hst, true_and, List.map_cons,
+        List.dropLast_cons_of_ne_nil (splitSlash_ne r)]
+      rw [tm_cons f _ _ _ hf, tm_cons f _ _ _ hf]
+      cases fs with
+      | nil =>
+        simp only [List.map_nil, simpleMatch, complete_slash, tm_nil]
+        have hne := splitSlash_ne r
+        simp only [hne, if_false, check_none]
+        cases r with
+        | nil => simp [splitSlash, orE]
+        | cons d r' =>
+          simp only [List.isEmpty_cons, Bool.false_or, Bool.false_eq_true, if_false, check_none]
+          cases he : endsSlash (d :: r') with
+          | false => simp [orE]
+          | true =>
+            have := dropLast_ne_of_endsSlash (d :: r') he
+            simp [this, check_none, orE]
+      | cons g fs' =>
+        rw [ih hs' (by simp) r]
+        unfold lenient
+        rw [check_orE]
+        congr 1
+        cases r with
+        | nil =>
+          simp only [List.isEmpty_nil, Bool.true_or, if_true, splitSlash, List.dropLast_singleton, List.map_cons]
+          rw [tm_cons_nil g _ (hs' g (by simp))]
+          simp [check_none]
+        | cons d r' =>
+          simp only [List.isEmpty_cons, Bool.false_or, true_and]
+          cases endsSlash (d :: r') <;> simp [check_none]
+
+
+
+
+
+
+
+
+
+theorem flatMatch_lenient (fs : List FSeg) (hs : ∀ g ∈ fs, SimpleN g) (hne : fs ≠ []) (t : Path) :
+    flatMatch fs ('/' :: t) = lenient (fs.map tokOf) t := by
+  unfold flatMatch flatMatchStrict flatMatchTrim lenient
+  rw [patternTokens_simple fs hs hne]
+  simp only [if_true, true_and]
+  cases tokMatch (fs.map tokOf) (splitSlash t) with
+  | some p => simp [orE]
+  | none =>
+    simp only [orE]
+    cases t.isEmpty <;> cases endsSlash t <;> simp
+
+theorem gen_toSeg (fs : List FSeg) : genSegs (fs.map toSeg) = fs := by
+  induction fs with
+  | nil => rfl
+  | cons f fs ih => cases f <;> simp [genSegs, toSeg, Seg.gen, ih]
+
+theorem simple_noOpt (fs : List FSeg) (hs : ∀ g ∈ fs, SimpleN g) : firstOpt fs = none := by
+  induction fs with
+  | nil => rfl
+  | cons f fs ih =>
+    have hf := hs f (by simp)
+    have := ih (fun x hx => hs x (by simp [hx]))
+    cases f <;> simp [SimpleN] at hf <;> simp [firstOpt, this]
+
+theorem expandedPerDef_leaf (fs : List FSeg) (hs : ∀ g ∈ fs, SimpleN g) :
+    expandedPerDef (leafDefs fs) = [[fs]] := by
+  have h1 := (firstOpt_none (simple_noOpt fs hs)).2
+  simp [expandedPerDef, leafDefs, Route.gen, Seg.gen, gen_toSeg, withBase, expandOptionals_eq_spec, h1]
+
+/-- **match ⇔ flat, partial (proved)** — single leaf routes whose segments are plain statics and
+params, on every request path on which the router behaves like its segment-aligned variant
+(`SegmentAligned`, decidable; its negation is the known-finding class of F-C14-1/2/3): the router does
+not panic, it matches exactly when the registered flat route accepts the path (one trailing `/`
+tolerated), and the params are the ones the flat route yields. -/
+theorem C14_match_iff_flat_partial (fs : List FSeg) (hs : ∀ g ∈ fs, SimpleN g) (hne : fs ≠ []) (path : Path)
+    (hp : startsSlash path = true) (hal : SegmentAligned (leafDefs fs) path) :
+    ∃ mt, matchRoute false (leafDefs fs) path =
+      match flatMatch fs path with
+      | some q => .some ⟨[(0, mt)], q⟩
+      | none => .none := by
+  obtain ⟨mt, hmt⟩ := leaf_simple fs (fun f hf => (hs f hf).simple) hne path
+  refine ⟨mt, ?_⟩
+  rw [hal, hmt]
+  cases path with
+  | nil => simp [startsSlash] at hp
+  | cons c t =>
+    simp [startsSlash] at hp
+    subst hp
+    rw [flatMatch_lenient fs hs hne t, simple_eq_lenient fs hs hne t]
+
+/-- … hence the property's oracle accepts (`Holds`, the body of the full statement) -/
+theorem C14_match_iff_flat_partial_holds (fs : List FSeg) (hs : ∀ g ∈ fs, SimpleN g) (hne : fs ≠ []) (path : Path)
+    (hp : startsSlash path = true) (hal : SegmentAligned (leafDefs fs) path) : Holds (leafDefs fs) path := by
+  obtain ⟨mt, hmt⟩ := C14_match_iff_flat_partial fs hs hne path hp hal
+  unfold Holds
+  rw [hmt]
+  unfold judge
+  simp only [expandedPerDef_leaf fs hs, firstStrict, anyStrict, List.any_cons, List.any_nil, Bool.or_false]
+  unfold flatMatch at *
+  cases hst : flatMatchStrict fs path with
+  | some q =>
+    simp [hst, lenientParams]
+  | none =>
+    simp only
+    cases htr : flatMatchTrim fs path with
+    | some q => simp [lenientParams, hst, htr]
+    | none => simp
+
+
+
+/-! ## non-vacuity: every hypothesis above is satisfiable (and the conclusions are not trivially empty) -/
+
+-- C14_partition: a nested tuple with an optional that is backed off
+example : (Seg.tup [.tup [], .opt ['a'], .tup [.st ['b']]]).test false ['/', 'b', '/'] = .some ⟨['/', 'b'], ['/'], []⟩ := by
+  decide
+
+-- C14_partition_nested: `hasOptParent = false` on a nested route that matches
+example : (Route.mk (.st ['a']) [.mk (.param ['i']) []]).hasOptParent = false ∧
+    matchNested false (.mk (.st ['a']) [.mk (.param ['i']) []]) 0 ['/', 'a', '/', 'x'] =
+      .some ⟨[(0, ['/', 'a']), (0, ['/', 'x'])], [(['i'], ['x'])]⟩ [] := by decide
+
+-- C14_params_are_segments: both branches occur
+example : segHead ['x', 'y', '/', 'z'] = ['x', 'y'] ∧ segHead ['/', 'z'] = [] := by decide
+
+-- C14_match_iff_flat_full / _partial_general: a well-formed table, a request path, aligned, no optionals
+example : fooBar.wf = true ∧ startsSlash ['/', 'f', 'o', 'o', '/', 'b', 'a', 'r'] = true ∧
+    noOptionalList fooBar.tops = true ∧ SegmentAligned fooBar ['/', 'f', 'o', 'o', '/', 'b', 'a', 'r'] ∧
+    Holds fooBar ['/', 'f', 'o', 'o', '/', 'b', 'a', 'r'] := by decide
+
+-- … and `SegmentAligned` is a real restriction: it fails exactly on the F-C14-1 input
+example : ¬ SegmentAligned fooBar pFoobar := by decide
+
+-- C14_match_iff_flat_partial: hypotheses satisfiable, with a match and with a non-match
+example : (∀ g ∈ [FSeg.st ['a'], FSeg.param ['i', 'd']], SimpleN g) ∧
+    SegmentAligned (leafDefs [.st ['a'], .param ['i', 'd']]) ['/', 'a', '/', 'x', '/'] ∧
+    flatMatch [.st ['a'], .param ['i', 'd']] ['/', 'a', '/', 'x', '/'] = some [(['i', 'd'], ['x'])] ∧
+    SegmentAligned (leafDefs [.st ['a'], .param ['i', 'd']]) ['/', 'a', '/', '/', 'x'] ∧
+    flatMatch [.st ['a'], .param ['i', 'd']] ['/', 'a', '/', '/', 'x'] = none := by decide
+
+-- … and not for every input of the sub-class: `/aéa` is outside `SegmentAligned` (it panics)
+example : ¬ SegmentAligned (leafDefs [.st ['a'], .param ['i', 'd']]) ['/', 'a', 'é', 'a'] := by decide
+
+-- C14_build_then_match: hypotheses satisfiable
+example : (∀ f ∈ [FSeg.st ['a'], FSeg.param ['i', 'd'], FSeg.st ['é']], SimpleF f) ∧
+    (∀ v ∈ [['x', '%']], GoodVal v) ∧
+    buildPath [.st ['a'], .param ['i', 'd'], .st ['é']] [['x', '%']] = some ['/', 'a', '/', 'x', '%', '/', 'é'] := by
+  decide
+
+-- C14_expand_optionals on a route with two optionals: the order of the real worklist
+example : expandOptionals [.opt ['a'], .opt ['b'], .st ['c']] =
+    [[.param ['a'], .param ['b'], .st ['c']], [.param ['a'], .st ['c']], [.param ['b'], .st ['c']], [.st ['c']]] := by
+  decide
+
 end Leptos.Router
